@@ -2,6 +2,7 @@ package main
 
 import (
 	"fmt"
+	"hash/fnv"
 	"strings"
 	"time"
 
@@ -33,6 +34,9 @@ func (o hop) line(id int) string {
 }
 
 func dumpReal(q *queue.VerifQueue[int, *item]) string {
+	if q == nil {
+		return ""
+	}
 	vals, idx := q.Dump()
 	parts := make([]string, len(vals))
 	for i := range vals {
@@ -41,12 +45,19 @@ func dumpReal(q *queue.VerifQueue[int, *item]) string {
 	return "arr=" + strings.Join(parts, ",")
 }
 
-func (r *runner) heapSeq(ops []hop, label string) {
+func (r *runner) heapSeq(ops []hop, label string) { r.heapSeqOpt(ops, label, true) }
+
+// heapSeqOpt: withModel=false runs only the model-independent checks (minimal Peek/Pop, consistent index).
+func (r *runner) heapSeqOpt(ops []hop, label string, withModel bool) {
 	if r.stop() {
 		return
 	}
 	base := time.Unix(1700000000, 0).UTC()
 	q := queue.NewVerifQueue[int, *item]()
+	dq := q // what is dumped after every operation (nothing if the model is not consulted)
+	if !withModel || r.drv == nil {
+		dq = nil
+	}
 	lines := []string{"h.reset"}
 	want := []string{"ok"}
 	id := 0
@@ -65,10 +76,10 @@ func (r *runner) heapSeq(ops []hop, label string) {
 			case "ins":
 				q.Insert(&item{key: o.key, at: base.Add(time.Duration(o.at)), id: id})
 				id++
-				want = append(want, dumpReal(q))
+				want = append(want, dumpReal(dq))
 			case "rm":
 				q.Remove(o.key)
-				want = append(want, dumpReal(q))
+				want = append(want, dumpReal(dq))
 			case "peek", "pop":
 				// model-independent: the result is a minimal item
 				vals, _ := q.Dump()
@@ -90,31 +101,39 @@ func (r *runner) heapSeq(ops []hop, label string) {
 				} else if len(vals) != 0 && bad == "" {
 					bad = o.kind + " returned nothing from a non-empty queue"
 				}
-				want = append(want, o.kind+"="+res+" "+dumpReal(q))
+				want = append(want, o.kind+"="+res+" "+dumpReal(dq))
 			}
 			if c := q.Consistent(); c != "" && bad == "" {
 				bad = "key index inconsistent: " + c
 			}
 		}
 	}()
+	guard := time.NewTimer(2 * time.Second)
+	defer guard.Stop()
 	select {
 	case <-done:
-	case <-time.After(2 * time.Second):
+	case <-guard.C:
 		r.res.Violate("queue-heap-hang", "an operation of the queue did not return", map[string]any{"kind": "heap", "ops": lines})
 		r.hangs += 4
 		r.abort = true
 		r.res.Note("a queue operation hung: remaining cases skipped")
 		return
 	}
-	r.res.Count("heap:"+strings.Join(lines, ";"), len(ops) >= 3)
+	hh := fnv.New64a()
+	for _, l := range lines {
+		hh.Write([]byte(l))
+		hh.Write([]byte{';'})
+	}
+	r.res.Count(fmt.Sprintf("heap:%x", hh.Sum64()), len(ops) >= 3)
 	r.res.Hit("case:heap-" + label)
 	for _, o := range ops {
 		r.res.Hit("heapop:" + o.kind)
 	}
 	if bad != "" {
+		r.res.Hit("violation:queue-heap-" + strings.Fields(bad)[0])
 		r.res.Violate("queue-heap-"+strings.Fields(bad)[0], bad, map[string]any{"kind": "heap", "ops": lines})
 	}
-	if r.drv == nil {
+	if r.drv == nil || !withModel {
 		return
 	}
 	outs, err := r.drv.AskBatch(lines[:len(want)])
@@ -134,6 +153,53 @@ func (r *runner) heapSeq(ops []hop, label string) {
 	r.res.Traces++
 }
 
+// heapRemoveFamily: n items with distinct keys inserted in EVERY order of their n distinct times,
+// then Remove of the item at every heap position, then Pop until empty: the order of execution of the
+// remaining n-1 items must be by time. Sifting UP after Remove is only needed from 7 items on
+// (the last element moves into another subtree whose parent is later), so n = 7 and n = 8.
+// The model-independent checks run on every sequence; every `sample`-th is also compared with the model.
+func (r *runner) heapRemoveFamily(n, sample, every int) {
+	perm := make([]int, n)
+	for i := range perm {
+		perm[i] = i
+	}
+	count, perms := 0, 0
+	var rec func(k int)
+	emit := func() {
+		perms++
+		if perms%every != 0 { // quick tier: a fixed subset of the orders
+			return
+		}
+		for rm := 0; rm < n; rm++ {
+			ops := make([]hop, 0, 2*n+1)
+			for i, t := range perm {
+				ops = append(ops, hop{"ins", i, int64(t + 1)})
+			}
+			ops = append(ops, hop{"rm", rm, 0})
+			for i := 0; i < n; i++ {
+				ops = append(ops, hop{kind: "pop"})
+			}
+			count++
+			r.heapSeqOpt(ops, fmt.Sprintf("remove-family-%d", n), count%sample == 0)
+		}
+	}
+	rec = func(k int) {
+		if r.abort {
+			return
+		}
+		if k == n {
+			emit()
+			return
+		}
+		for i := k; i < n; i++ {
+			perm[k], perm[i] = perm[i], perm[k]
+			rec(k + 1)
+			perm[k], perm[i] = perm[i], perm[k]
+		}
+	}
+	rec(0)
+}
+
 var heapTimes = []int64{0, 1, 1, 2, 3, 3, 5, 8}
 
 func (r *runner) heapDiff(rnd *lib.Rand, n int) {
@@ -151,6 +217,14 @@ func (r *runner) heapDiff(rnd *lib.Rand, n int) {
 	}
 	for d := 1; d <= 4; d++ {
 		rec(nil, d)
+	}
+	// Remove at every position of every 7- and 8-item heap
+	if n >= 1000 { // thorough
+		r.heapRemoveFamily(7, 4, 1)
+		r.heapRemoveFamily(8, 40, 1)
+	} else {
+		r.heapRemoveFamily(7, 16, 1)
+		r.heapRemoveFamily(8, 100, 8)
 	}
 	// random long sequences with many ties and replacements
 	for i := 0; i < n; i++ {
